@@ -122,6 +122,18 @@ func makeRemoteSource(sourceType string, u *url.URL, subPath string) (RemoteSour
 		return RemoteSource{}, err
 	}
 
+	// url.Parse keeps the original spelling of the path and fragment in
+	// RawPath and RawFragment when it is not the canonical encoding (a raw
+	// space, for example). String() ignores a spelling that is not a valid
+	// encoding, so two addresses that print identically would still compare
+	// as different values. Keep only what String() reproduces.
+	if u.RawPath != "" && u.EscapedPath() != u.RawPath {
+		u.RawPath = ""
+	}
+	if u.RawFragment != "" && u.EscapedFragment() != u.RawFragment {
+		u.RawFragment = ""
+	}
+
 	return RemoteSource{
 		pkg: RemotePackage{
 			sourceType: sourceType,
